@@ -3,6 +3,7 @@ package main
 import (
 	"go/constant"
 	"go/token"
+	"go/types"
 
 	"golang.org/x/tools/go/ssa"
 )
@@ -111,7 +112,37 @@ func rangeIndexLoop(phi *ssa.Phi) *RangeLoop {
 	}
 	over, ok := lenOf(cmp.Y)
 	if !ok {
-		return nil
+		// range over an array (or pointer to array): the bound is the constant length
+		n, isConst := constInt(cmp.Y)
+		if !isConst || next.Referrers() == nil {
+			return nil
+		}
+		for _, r := range *next.Referrers() {
+			var x ssa.Value
+			switch u := r.(type) {
+			case *ssa.IndexAddr:
+				if u.Index == ssa.Value(next) {
+					x = u.X
+				}
+			case *ssa.Index:
+				if u.Index == ssa.Value(next) {
+					x = u.X
+				}
+			}
+			if x == nil {
+				continue
+			}
+			t := x.Type().Underlying()
+			if pt, isPtr := t.(*types.Pointer); isPtr {
+				t = pt.Elem().Underlying()
+			}
+			if arr, isArr := t.(*types.Array); isArr && arr.Len() == n {
+				over = x
+			}
+		}
+		if over == nil {
+			return nil
+		}
 	}
 	return &RangeLoop{Kind: "rangeindex", Phi: phi, Over: over, Header: blk, Body: blk.Succs[0], Exit: blk.Succs[1], Index: next}
 }
